@@ -647,3 +647,49 @@ def coqchk(check, modules=None, timeout=1800):
     if not ok:
         check.broken.append("coqchk failed on %s: %s" % (" ".join(modules), text[-400:]))
     return ok
+
+
+def run_lines_robust(exe, lines, timeout=120, env=None, args=(), per_line_timeout=10, max_failures=4):
+    """Like run_lines, but a harness that hangs or dies in the middle does not lose the
+    other cases: returns a list with one entry per input line; the entry of a line the
+    harness hung on is 'TIMEOUT', of one it died on 'CRASH:<status>'.  After max_failures such
+    lines the remaining ones are not run ('SKIPPED').  (The harness must flush after every line.)"""
+    out_all = []
+    rest = list(lines)
+    first = True
+    failures = 0
+    while rest:
+        if failures >= max_failures:
+            out_all += ["SKIPPED"] * len(rest)
+            break
+        data = ("\n".join(rest) + "\n").encode()
+        t = timeout if first else max(per_line_timeout, timeout // 4)
+        try:
+            p = subprocess.run([exe] + list(args), input=data, stdout=subprocess.PIPE, stderr=subprocess.PIPE, timeout=t, env=env)
+            raw, status = p.stdout, p.returncode
+            timed_out = False
+        except subprocess.TimeoutExpired as e:
+            raw, status, timed_out = e.stdout or b"", None, True
+        out = raw.decode("utf-8", "replace").split("\n")
+        complete = out[:-1]            # the last element is '' or a partial line
+        complete = complete[:len(rest)]
+        out_all += complete
+        if len(complete) == len(rest):
+            break
+        # the line after the last complete one is the culprit
+        if timed_out:
+            # distinguish "slow batch" from "hang on this line": retry the culprit alone
+            try:
+                p = subprocess.run([exe] + list(args), input=(rest[len(complete)] + "\n").encode(), stdout=subprocess.PIPE,
+                                   stderr=subprocess.PIPE, timeout=per_line_timeout, env=env)
+                o = p.stdout.decode("utf-8", "replace").split("\n")
+                out_all.append(o[0] if len(o) > 1 else "CRASH:%s" % p.returncode)
+            except subprocess.TimeoutExpired:
+                out_all.append("TIMEOUT")
+        else:
+            out_all.append("CRASH:%s" % status)
+        if out_all[-1] == "TIMEOUT" or out_all[-1].startswith("CRASH"):
+            failures += 1
+        rest = rest[len(complete) + 1:]
+        first = False
+    return out_all
